@@ -26,14 +26,20 @@ type rule struct {
 	dest   string // export: repo-relative destination file
 }
 
+var rpcmdExport = rule{kind: "export", target: "rpcmd_export.go", dest: "gcetcbendorsement/cmd/zz_verif_export.go"}
+
 var perProp = map[string][]rule{
+	"C01": {rpcmdExport},
+	"C02": {rpcmdExport},
+	"C07": {rpcmdExport},
+	"C19": {rpcmdExport},
 	"C05": {{kind: "export", target: "ovmf_export.go", dest: "ovmf/zz_verif_export.go"}},
 	"C09": {
 		{kind: "points", target: "verify/verify.go"},
 		{kind: "points", target: "gcetcbendorsement/sevvalidate.go"},
 	},
 	"C13": {{kind: "export", target: "endorse_export.go", dest: "endorse/zz_verif_export.go"}},
-	"C16": {{kind: "export", target: "endorse_export.go", dest: "endorse/zz_verif_export.go"}},
+	"C16": {{kind: "export", target: "endorse_export.go", dest: "endorse/zz_verif_export.go"}, rpcmdExport},
 	"C20": {
 		{kind: "clock", target: "keys/gcpkms"},
 	},
